@@ -23,6 +23,8 @@ MARK_RE = re.compile(r'//@\s*((?:C\d\d\b\s*)*)\|?\s*([^\n]*)')
 UNITS = {
     'mapper': dict(modules=['key_codes', 'events', 'keys', 'key_transforms'], spec=['trace.rs'],
                    verify=['keys', 'key_transforms', 'trace'], default_tags={'key_transforms': ['C14'], 'keys': ['C14']}),
+    'loop': dict(modules=['key_codes', 'events', 'keys', 'key_transforms', 'tablet_mode_switch_reader', 'remapping_loop'], spec=[],
+                 verify_only=['remapping_loop'], default_tags={'remapping_loop': ['C10', 'C12', 'C20', 'C11']}),
 }
 
 
@@ -107,11 +109,10 @@ def attribute(diag, items, marks, lines):
     # location that decides the function: primary span (call site / assert / invariant / exit point)
     loc = primary
     use = primary
-    if 'postcondition' in msg and clause is not None:
-        use = clause            # label of the ensures clause
-        loc = clause
-    elif 'precondition' in msg:
+    if 'precondition' in msg:
         use = primary           # label governing the call site
+    elif clause is not None:
+        use = clause            # label of the ensures / invariant clause that failed
     item = None
     for it in items:
         if it['line_start'] <= loc['line_start'] <= it['line_end']:
@@ -122,6 +123,16 @@ def attribute(diag, items, marks, lines):
             if item['line_start'] <= m[0] <= use['line_start'] and m[0] <= item['line_end']:
                 if m[0] > item.get('head_line', item['line_start']) or mk is None:
                     mk = m
+    if 'precondition' in msg and clause is not None:
+        # a labelled `requires` clause of the callee names the obligation better than the call site does
+        citem = None
+        for it in items:
+            if it['line_start'] <= clause['line_start'] <= it['line_end']: citem = it
+        if citem is not None:
+            cmk = None
+            for m in marks:
+                if citem.get('head_line', citem['line_start']) < m[0] <= clause['line_start']: cmk = m
+            if cmk is not None and cmk[1]: mk = cmk
     fn = fn_at(lines, item, loc['line_start']) if item else None
     return item, fn, mk, clause, primary
 
@@ -168,6 +179,7 @@ def run_unit(name, tier='quick', use_cache=True, extra_args=(), log=print):
     path = os.path.join(BUILD, 'tm_%s.rs' % name)
     rlimit = '30' if tier == 'quick' else '60'
     args = ['--rlimit', rlimit] + list(extra_args)
+    for vm in cfg.get('verify_only', []): args += ['--verify-module', vm]
     key = hashlib.sha256((asm.text + '\0' + ' '.join(args) + '\0v3').encode()).hexdigest()[:24]
     cpath = os.path.join(CACHE, '%s-%s.json' % (name, key))
     obls, marks = obligations_of(asm.text, asm.items, cfg)
